@@ -75,7 +75,7 @@ print("RESULT " + json.dumps(out))
 
 def loadable(name, load):
     need = NEEDS[name]
-    return need is None or load[need]
+    return need is None or load[need] is True       # "noexec": the tools are present but cannot be executed -> not loadable
 
 
 def model(cfg):
@@ -105,7 +105,8 @@ def run_case(cfg):
         paths.append(os.path.join(backends.SHIMS, "libsnark_stub"))
     envv = {k: v for k, v in os.environ.items() if k not in ("PYSNARK_BACKEND", "QAPTOOLS_BIN", "PYTHONPATH")}
     envv.update({"PYTHONPATH": os.pathsep.join(paths) + core.COVPATH, "PYTHONDONTWRITEBYTECODE": "1", "PYTHONHASHSEED": str(cfg["hashseed"]) if "hashseed" in cfg else core.hashseed_for(cfg),
-                 "QAPTOOLS_BIN": os.path.join(backends.SHIMS, "qapbin") if load["qaptools"] else "/nonexistent-qaptools-dir"})
+                 "QAPTOOLS_BIN": (os.path.join(backends.SHIMS, "qapbin_noexec") if load["qaptools"] == "noexec" else
+                                  os.path.join(backends.SHIMS, "qapbin")) if load["qaptools"] else "/nonexistent-qaptools-dir"})
     if env is not None:
         envv["PYSNARK_BACKEND"] = env
     import tempfile, shutil
@@ -121,7 +122,8 @@ def run_case(cfg):
     for ln in r.stdout.splitlines():
         if ln.startswith("RESULT "):
             res = json.loads(ln[7:])
-    desc = "PYSNARK_BACKEND=%r, pre-imported %r, loadable %r%s" % (env, pre, sorted(k for k, v in load.items() if v),
+    desc = "PYSNARK_BACKEND=%r, pre-imported %r, loadable %r%s%s" % (env, pre, sorted(k for k, v in load.items() if v is True),
+                                                                    ", qaptools executables present but not executable" if load["qaptools"] == "noexec" else "",
                                                                   ", interactive session (get_ipython defined)" if cfg.get("interactive") else "")
     if exp[0] == "fail":
         if res is not None or r.returncode == 0:
@@ -179,6 +181,8 @@ def all_configs():
                 derived = [n for n in pre if n in ("zkifbellman", "zkifbulletproofs")]
                 if len(derived) > 1:
                     continue      # two conflicting field switches of one base module: not a defined configuration
+                if not pre and not load["libsnark"] and not load["qaptools"]:
+                    out.append({"env": env, "pre": pre, "load": dict(load, qaptools="noexec")})
                 if all(loadable(n, load) for n in pre):
                     out.append({"env": env, "pre": pre, "load": load})
                     if len(pre) <= 1:
